@@ -255,8 +255,19 @@ class _ReusablePoolExecutor(ProcessPoolExecutor):
                 time.sleep(1e-3)
 
             self._adjust_process_count()
-            processes = list(self._processes.values())
-            while not all(p.is_alive() for p in processes):
+            # Wake up the executor manager thread so that it also watches the
+            # sentinels of the workers that were just spawned: a worker dying
+            # from now on is noticed and the executor flagged as broken.
+            with self._flags.shutdown_lock:
+                if self._executor_manager_thread_wakeup is not None:
+                    self._executor_manager_thread_wakeup.wakeup()
+            # Wait for the workers to be up. The worker table is read again
+            # at each poll: a worker that exited or died in the meantime is
+            # removed from it (or the executor flagged as broken) by the
+            # executor manager thread and must not be waited for forever.
+            while not self._flags.broken and not all(
+                p.is_alive() for p in list(self._processes.values())
+            ):
                 time.sleep(1e-3)
 
     def _wait_job_completion(self):
